@@ -582,10 +582,7 @@ impl<E: Effect, R: CommandReceiver<E>, S: EventSender<E>> Worker<E, R, S> {
             }
             Err(error) => {
                 // Set the process result to the error and clear frames to complete it
-                if let Some(process) = self.executor.get_process_mut(awaiter) {
-                    process.result = Some(Err(error));
-                    process.frames.clear(); // Complete the process
-                }
+                self.executor.fail_process(awaiter, error);
             }
         }
         Ok(())
@@ -790,6 +787,12 @@ impl<E: Effect, R: CommandReceiver<E>, S: EventSender<E>> Worker<E, R, S> {
     }
 
     fn check_completed_processes(&mut self) -> Result<(), EnvironmentError> {
+        // Report terminated processes first, so the environment hears of a termination before
+        // it hears of the result.
+        for process_id in self.executor.take_terminated() {
+            self.sender.send(Event::ProcessTerminated { process_id })?;
+        }
+
         // Check awaited processes for completion
         let awaited_pids: Vec<ProcessId> = self.awaited.iter().copied().collect();
         #[cfg(feature = "verif")]
